@@ -1,4 +1,5 @@
-"""Discharge obligations: one SMT query per (clause, path), process pool, z3 API first, cvc5/z3 CLI fallback."""
+"""Discharge obligations: one SMT query per (clause, path), process pool; z3 through the API (objects shared with
+the forked workers, no SMT-LIB round trip), cvc5 CLI as fallback for string queries z3 leaves open."""
 import os
 import subprocess
 import tempfile
@@ -6,33 +7,6 @@ import time
 import multiprocessing as mp
 
 import z3
-
-
-def _has_strings(smt):
-    return 'String' in smt or 'str.' in smt
-
-
-def _run_z3(smt, timeout_ms, witness_names):
-    s = z3.Solver()
-    s.set('timeout', timeout_ms)
-    s.set('random_seed', 7)
-    t0 = time.time()
-    try:
-        s.from_string(smt)
-        r = s.check()
-    except z3.Z3Exception as e:
-        return 'error', time.time() - t0, str(e)
-    dt = time.time() - t0
-    if r == z3.unsat:
-        return 'unsat', dt, None
-    if r == z3.sat:
-        m = s.model()
-        out = {}
-        for d in m.decls():
-            if d.name() in witness_names:
-                out[d.name()] = str(m[d])
-        return 'sat', dt, out
-    return 'unknown', dt, s.reason_unknown()
 
 
 def _run_cli(cmd, smt, timeout_s):
@@ -66,18 +40,69 @@ _JOBS = []
 _AXIOMS = ()
 
 
+def _consts(e):
+    """names of the uninterpreted constants (heap versions, variables) occurring in a term"""
+    out, seen, todo = set(), set(), [e]
+    while todo:
+        t = todo.pop()
+        if t.get_id() in seen:
+            continue
+        seen.add(t.get_id())
+        if z3.is_quantifier(t):
+            todo.append(t.body())
+        elif z3.is_app(t):
+            if t.num_args() == 0 and t.decl().kind() == z3.Z3_OP_UNINTERPRETED:
+                out.add(t.decl().name())
+            else:
+                todo.extend(t.children())
+    return out
+
+
+def _has_q(e):
+    sx = e.sexpr()
+    return 'forall' in sx or 'exists' in sx
+
+
 def _run_z3_direct(ob, timeout_ms, axioms):
-    s = z3.Solver()
-    s.set('timeout', timeout_ms)
-    s.set('random_seed', 7)
     t0 = time.time()
+    pc = list(ob.pc)
+    quant = [p for p in pc if _has_q(p)]
+    qf = [p for p in pc if not _has_q(p)]
+    has_q = bool(quant) or _has_q(ob.goal)
     try:
-        for a in axioms:
-            s.add(a)
-        for p in ob.pc:
-            s.add(p)
-        s.add(z3.Not(ob.goal))
-        r = s.check()
+        r = z3.unknown
+        s = None
+        # A proof from a SUBSET of the hypotheses is a proof: cheap subsets first, the full path condition last.
+        #  0. quantifier-free facts only              1. plus the quantified facts sharing a heap version / variable
+        #  with the goal (E-matching only)            2. everything, E-matching only      3. everything, z3 defaults
+        plans = []
+        if has_q:
+            gc = _consts(ob.goal)
+            rel = [p for p in quant if _consts(p) & gc]
+            plans.append((qf, False, max(1500, timeout_ms // 6), False))
+            if len(rel) < len(quant):
+                plans.append((qf + rel, False, max(2000, timeout_ms // 4), False))
+            plans.append((pc, False, max(2000, timeout_ms // 3), False))
+        plans.append((pc, True, timeout_ms, True))
+        for facts, mbqi, budget, full in plans:
+            s = z3.Solver()
+            s.set('timeout', int(budget))
+            s.set('random_seed', 7)
+            if not mbqi:
+                s.set('auto_config', False)
+                s.set('smt.mbqi', False)
+            for a in axioms:
+                s.add(a)
+            for p in facts:
+                s.add(p)
+            s.add(z3.Not(ob.goal))
+            r = s.check()
+            if r == z3.unsat:
+                break
+            if r == z3.sat and full:
+                break
+            if r == z3.sat:
+                r = z3.unknown        # a model of a subset of the hypotheses says nothing
     except z3.Z3Exception as e:
         return 'error', time.time() - t0, str(e)
     dt = time.time() - t0
@@ -92,7 +117,7 @@ def _run_z3_direct(ob, timeout_ms, axioms):
             except z3.Z3Exception:
                 pass
         return 'sat', dt, out
-    return 'unknown', dt, s.reason_unknown()
+    return 'unknown', dt, s.reason_unknown() if s is not None else ''
 
 
 def solve_one(job):
@@ -101,17 +126,17 @@ def solve_one(job):
     ob = _JOBS[idx]
     res, dt, info = _run_z3_direct(ob, timeout_ms, axioms)
     solver = 'z3'
-    smt = ''
     if res in ('unknown', 'error') and use_cvc5:
         try:
             smt = ob.smt2(axioms)
         except Exception:
             smt = 'lambda'
-    if res in ('unknown', 'error') and use_cvc5 and 'lambda' not in smt and 'define-fun-rec' not in smt:
-        r2, dt2, info2 = _run_cli(['/usr/bin/cvc5', '--strings-exp', '--tlimit=%d' % timeout_ms],
-                                  _to_cvc5(smt), timeout_ms / 1000 + 5)
-        if r2 in ('sat', 'unsat'):
-            return idx, r2, dt + dt2, info2 if r2 == 'sat' else None, 'cvc5'
+        if ('String' in smt or 'str.' in smt) and 'lambda' not in smt and 'define-fun-rec' not in smt \
+                and 'forall' not in smt:
+            r2, dt2, info2 = _run_cli(['/usr/bin/cvc5', '--strings-exp', '--tlimit=%d' % timeout_ms],
+                                      _to_cvc5(smt), timeout_ms / 1000 + 5)
+            if r2 in ('sat', 'unsat'):
+                return idx, r2, dt + dt2, info2 if r2 == 'sat' else None, 'cvc5'
     return idx, res, dt, info, solver
 
 
